@@ -360,6 +360,50 @@ def judge_msf(case):
     return j
 
 
+def judge_sets(case):
+    """MCF and MSF take (n_locations, n_modes) sets: one value per shape (column), equal to the single-shape value"""
+    j = J()
+    X, A = _mat(case["X"]), _mat(case["A"])
+    n, p = X.shape
+    j.tag("more_shapes_than_components" if p > n else "tall_or_square")
+    j.nontrivial(p >= 2)
+    r = sut(gen.MCF, X.copy())
+    if j.check(not raised(r), "MCF-set-raises", lambda: f"{r!r}"):
+        r = np.asarray(r).reshape(-1)
+        if j.check(r.shape == (p,), "MCF-set-shape", lambda: f"MCF of {p} shapes with {n} components returned {r.shape[0]} values"):
+            for k in range(p):
+                one = sut(gen.MCF, X[:, k].copy())
+                j.check(not raised(one) and abs(float(np.asarray(one).reshape(-1)[0]) - r[k]) <= 1e-12, "MCF-set-value", lambda: f"column {k}: {r[k]!r} vs single-shape value {one!r}")
+                j.check(-1e-9 <= r[k] <= 1 + 1e-9, "MCF-bounds", lambda: f"{r[k]!r}")
+    q = min(p, A.shape[1])
+    c = np.linspace(-2.0, 3.0, q) + 0.25
+    r = sut(gen.MSF, X[:, :q].real.copy(), (X[:, :q].real * c[None, :]).copy())
+    if j.check(not raised(r), "MSF-set-raises", lambda: f"{r!r}"):
+        r = np.asarray(r).reshape(-1)
+        ok = r.shape == (q,) and all(np.linalg.norm(X[:, k].real) < 1e-6 or abs(r[k] - c[k]) <= 1e-9 * max(1, abs(c[k])) for k in range(q))
+        j.check(ok, "MSF-set-identity", lambda: f"MSF(X, X*c) = {r.tolist()} expected {c.tolist()}")
+    return j
+
+
+@st.composite
+def sets_case(draw):
+    n = draw(st.integers(2, 8))
+    p = draw(st.integers(1, 10))
+    ent = st.floats(-5, 5, allow_nan=False, width=64)
+
+    def mat(k):
+        out = []
+        for _ in range(k):
+            re = draw(st.lists(ent, min_size=n, max_size=n))
+            im = draw(st.lists(ent, min_size=n, max_size=n))
+            if max(abs(x) for x in re + im) < 1e-3:
+                re[0] = 1.0
+            out.append([re, im])
+        return out
+
+    return {"n": n, "X": mat(p), "A": mat(p)}
+
+
 SUBS = [
     Sub("bounds", judge_bounds, bounds_case(), quick=2000, thorough=100000,
         rule="MPC, MCF in [0,1], MPD in [0,pi/2], MAC in [0,1]; finite real values"),
@@ -369,6 +413,8 @@ SUBS = [
         rule="MAC, MPC, MPD, MCF unchanged under phi -> c*phi, |c| in [1e-6,1e6]"),
     Sub("collinear_exact", judge_collinear, collinear_case(), quick=2000, thorough=100000,
         rule="phi = c*v with v real: MAC(phi,v)=1, MPC=1, MPD=0, MCF=0, finite"),
+    Sub("indicator_sets", judge_sets, sets_case(), quick=500, thorough=20000,
+        rule="MCF / MSF on (n_locations, n_modes) sets, including more shapes than components: one value per shape equal to the single-shape value"),
     Sub("msf_identity", judge_msf, msf_case(), quick=1500, thorough=60000,
         rule="MSF(v, c*v) = c for real c, real or complex v (guard |v^T v| >= 0.05 v^H v)"),
 ]
